@@ -8,6 +8,7 @@ import Driver.Erc20
 import Driver.Cpc
 import Driver.Genesis
 import Driver.BinSearch
+import Driver.Indexer
 
 def main (args : List String) : IO UInt32 := do
   let stdin ← IO.getStdin
@@ -23,4 +24,5 @@ def main (args : List String) : IO UInt32 := do
   | ["cpc"] => Driver.loop stdin stdout Driver.Cpc.step Evermint.Cpc.empty; return 0
   | ["genesis"] => Driver.loop stdin stdout Driver.Genesis.step (); return 0
   | ["binsearch"] => Driver.loop stdin stdout Driver.BinSearch.step (); return 0
+  | ["indexer"] => Driver.loop stdin stdout Driver.Indexer.step Evermint.Indexer.Db.empty; return 0
   | _ => IO.eprintln "usage: driver <engine>"; return 2
